@@ -70,6 +70,7 @@ type selRec struct {
 }
 
 type poolRig struct {
+	named   bool // backends written by host name
 	w       *World
 	c       *sim.Ctl
 	st      *sim.Stream
@@ -205,7 +206,7 @@ func (t hcRT) RoundTrip(req *http.Request) (*http.Response, error) {
 	r := t.rig
 	st := 200
 	for i := range r.hcBad {
-		if req.URL.Host == fmt.Sprintf("10.9.0.%d:80", i+1) && r.hcBad[i] {
+		if req.URL.Host == r.addr(i) && r.hcBad[i] {
 			st = 503
 		}
 	}
@@ -375,6 +376,12 @@ func (t *simRT) RoundTrip(req *http.Request) (resp *http.Response, err error) {
 	if rq == nil || r.cleanup {
 		return nil, errBackend
 	}
+	if want := r.addr(t.idx); req.URL.Scheme != "http" || req.URL.Host != want {
+		// (what net/http's transport would refuse, or send somewhere else)
+		c.Violate("C05/backend-address-misread", "", "the backend written as %q is asked with scheme %q, host %q (opaque %q)", want, req.URL.Scheme, req.URL.Host, req.URL.Opaque)
+		r.failLog[t.idx] = append(r.failLog[t.idx], c.Now())
+		return nil, fmt.Errorf("unsupported protocol scheme %q", req.URL.Scheme)
+	}
 	att := &attemptRec{host: t.idx, in: c.Now()}
 	rq.attempts = append(rq.attempts, att)
 	k := len(rq.attempts)
@@ -507,6 +514,15 @@ func (r *poolRig) checkSelected(name string) {
 	}
 }
 
+// addr is the address backend i is written with: an IP address, or (named) a host name of the
+// kind container setups produce.
+func (r *poolRig) addr(i int) string {
+	if r.named {
+		return fmt.Sprintf([]string{"httpd-%d.sim:80", "web-%d.sim:80", "http-api-%d.sim:80", "https-%d.sim:80"}[i%4], i+1)
+	}
+	return fmt.Sprintf("10.9.0.%d:80", i+1)
+}
+
 func (r *poolRig) reqByID(id string) *preq {
 	for _, q := range r.reqs {
 		if fmt.Sprint(q.id) == id {
@@ -622,9 +638,11 @@ func runPool(mode string) sim.RigFunc {
 		// backends are named on the directive's line, or by upstream lines anywhere in its block: the
 		// block's settings hold for all of them, wherever they are written
 		shape := st.Draw(5)
+		r.named = st.Draw(4) == 0
+		c.Params["backends_by_name"] = r.named
 		upLines := func(from int) {
 			for i := from; i < r.n; i++ {
-				fmt.Fprintf(&b, "\t\tupstream 10.9.0.%d:80\n", i+1)
+				fmt.Fprintf(&b, "\t\tupstream %s\n", r.addr(i))
 			}
 		}
 		inline := r.n
@@ -635,7 +653,7 @@ func runPool(mode string) sim.RigFunc {
 			inline = 1
 		}
 		for i := 0; i < inline; i++ {
-			fmt.Fprintf(&b, " 10.9.0.%d:80", i+1)
+			fmt.Fprintf(&b, " %s", r.addr(i))
 		}
 		b.WriteString(" {\n")
 		if shape == 1 {
@@ -1034,6 +1052,11 @@ func (r *poolRig) judgeRequests() {
 				(r.policy == "first" || r.policy == "ip_hash" || r.policy == "uri_hash" || r.policy == "header") {
 				// the whole duration was spent on backends that fail every time, the healthy one was never asked
 				c.Violate("C05/healthy-backend-never-tried", "fail_timeout-shorter-than-try_interval/sticky-policy", "request %d failed with %d after %s (try_duration %s, try_interval %s, fail_timeout %s, policy %s): every one of its %d attempts went to a failing backend (%v) although a healthy one exists", q.id, q.status, elapsed, r.tryDuration, r.tryInterval, r.failTimeout, r.policy, len(tried), tried)
+			} else if r.maxFails > 1 && r.maxFails < 100 && !triedHealthy(tried, r.down) && repeats(tried) &&
+				(r.policy == "first" || r.policy == "ip_hash" || r.policy == "uri_hash" || r.policy == "header") {
+				// the same cause with the everyday trigger: a backend counts as up until its max_fails-th
+				// failure, and the retry loop goes back to the one that has just failed this request
+				c.Violate("C05/healthy-backend-never-tried", "max_fails-above-one/sticky-policy", "request %d failed with %d after %s (try_duration %s, try_interval %s, max_fails %d, policy %s): its %d attempts went to failing backends, some of them repeatedly (%v), although a healthy one exists", q.id, q.status, elapsed, r.tryDuration, r.tryInterval, r.maxFails, r.policy, len(tried), tried)
 			} else {
 				c.Probe("retry-oracle-inapplicable(duration-spent)")
 			}
@@ -1053,6 +1076,16 @@ func (r *poolRig) judgeRequests() {
 func triedHealthy(tried []int, down []bool) bool {
 	for _, h := range tried {
 		if h >= 0 && h < len(down) && !down[h] {
+			return true
+		}
+	}
+	return false
+}
+
+// repeats: some backend occurs more than once in the (sorted) list of attempts.
+func repeats(tried []int) bool {
+	for i := 1; i < len(tried); i++ {
+		if tried[i] == tried[i-1] {
 			return true
 		}
 	}
